@@ -26,7 +26,7 @@ from .. import ent_check as EF
 from . import c03, c04, c11
 
 PID = "C16"
-REJECTED = {"view", "unsup"}          # kinds the grammar rejects; plus the tail of a multi-line skip-word statement
+REJECTED = {"view", "unsup", "ext"}          # kinds the grammar rejects; plus the tail of a multi-line skip-word statement
 
 
 def rejected_reaches_grammar(b):
@@ -47,9 +47,9 @@ def run(tier, seed):
     cov = {"model_checked": [], "generation": []}
     sk = [x for x in c03.SK if x[0] != "drop"]     # DROP TABLE has its own production (C03 records what it yields)
     cs = F.consts(sk, MaxStmts=3)
-    r = F.mc(cs, "<=3 statements of 17 shapes")
+    r = F.mc(cs, "<=3 statements of 18 shapes")
     states, trans = r.distinct, r.generated
-    cov["model_checked"].append({"config": "<=3 statements of 17 shapes", "distinct_states": r.distinct})
+    cov["model_checked"].append({"config": "<=3 statements of 18 shapes", "distinct_states": r.distinct})
     g = F.mc(dict(cs, WithHist="TRUE"), "generation")
     behs = [b for b in g.beh if b["stmts"]]
     if not thorough:
